@@ -18,6 +18,9 @@ for f in sorted(glob.glob(os.path.join(res, "*.json"))):
     os.makedirs(dst, exist_ok=True)
     for fn in ("patch.diff", "demo.py"):
         shutil.copy(os.path.join(src, fn), os.path.join(dst, fn))
+    if os.path.exists(os.path.join(src, "patch.original.diff")):
+        # the change as the sub-agent wrote it; patch.diff is the same change carried over to the tree after later fix: commits
+        shutil.copy(os.path.join(src, "patch.original.diff"), os.path.join(dst, "patch.original.diff"))
     try:
         meta = json.load(open(os.path.join(src, "meta.json")))
     except Exception:
@@ -27,6 +30,8 @@ for f in sorted(glob.glob(os.path.join(res, "*.json"))):
         old = json.load(open(os.path.join(dst, "meta.json"))).get("caught_by", {})
     meta.setdefault("property", name.split("-")[0])
     meta["origin"] = "independent sub-agent given only the property text and its own worktree"
+    if r.get("suite_note"):
+        meta["suite_note"] = r["suite_note"]
     meta["confirmed"] = {"demo_unpatched_rc": r["demo_unpatched"]["rc"], "demo_patched_rc": r["demo_patched"]["rc"],
                          "suite_missing_vs_baseline": r.get("suite", {}).get("missing"),
                          "how": "tools/seed_eval.py in a scratch copy of /repo (never committed there)"}
